@@ -442,11 +442,21 @@ def r5_groups(facts, rep):
                 it = core.Interp(facts, dom, budget=200000)
                 st = dom.setlex({(0, 0): c12.lexer_value(escape, facts)}, lo, None)
                 kinds = set()
+                followers = set()
                 for o in it.run(nx, [Ref(0, 0)], st):
                     v = o.value
                     tok = v.field(0) if isinstance(v, Agg) and v.vname == "Some" else None
                     k = tok.field(1) if isinstance(tok, Agg) else None
                     kinds.add(k.vi if isinstance(k, Agg) else None)
+                    if isinstance(k, Agg) and k.vi == ws:
+                        followers.add(dom.lex(o.store)[0])
+                # a run of blanks is one token: where the WHITESPACE token ends, the next character was looked at and is not a
+                # blank (the grammar counts blank *tokens* between unit words, not characters)
+                loose = sorted(str(f) for f in followers if f != "EOF" and (f is None or not isinstance(f, int) or chars.in_set(f, chars.WHITE_SPACE)))
+                rep.ob("C06-R7", "blank-run:%s:escape=%s" % (chars.describe(lo), escape), not loose and bool(followers),
+                       "a WHITESPACE token ends only in front of a non-blank or at the end" if not loose and followers else
+                       "a WHITESPACE token can end in front of %s (a blank, or a character that was not looked at): a run of blanks is cut into several tokens" % loose[:3],
+                       nx.site())
                 rep.ob("C06-R7", "blank:%s:escape=%s" % (chars.describe(lo), escape), kinds == {ws},
                        "a token starting with %s..%s has kind(s) %s" % (chars.describe(lo), chars.describe(hi),
                                                                       sorted(facts.variant_by_discr("syntax::parser::Syntax", k) or "?" for k in kinds if k is not None)),
